@@ -33,6 +33,13 @@
 
 #include <unordered_map>
 
+// tags of the array_adaptive variant carry their own prefix: its recorded findings (backward
+// array transfer functions) must never absorb a failure of another variant
+#if defined(VERIF_VARIANT_aa_int)
+#define AA_PFX "aa_"
+#else
+#define AA_PFX ""
+#endif
 using namespace verif;
 using namespace vp;
 
@@ -435,7 +442,14 @@ void run_case(const uint8_t *data, size_t size, CaseCtx &ctx) {
         z_number k(t.small_int(8));
         c = t.flag() ? cst_t(lin_t(v) <= lin_t(k)) : cst_t(lin_t(v) >= lin_t(k));
       }
-      cfg.get_node(l).assertion(c, crab::cfg::debug_info("verif", 1, 1, go.first_assert_id + prog.n_asserts));
+      if (!prog.bools.empty() && t.pick(3) == 2) {
+        // boolean domains: the appended assertion is a bool_assert on a boolean defined from the
+        // condition (the only assertion of its block more often than not)
+        var_t q = gen.bvar();
+        cfg.get_node(l).bool_assign(q, c);
+        cfg.get_node(l).bool_assert(q, crab::cfg::debug_info("verif", 1, 1, go.first_assert_id + prog.n_asserts));
+      } else
+        cfg.get_node(l).assertion(c, crab::cfg::debug_info("verif", 1, 1, go.first_assert_id + prog.n_asserts));
       prog.n_asserts++;
     }
   }
@@ -642,7 +656,7 @@ void run_case(const uint8_t *data, size_t size, CaseCtx &ctx) {
       }
       events++;
       unsigned upto = good ? (unsigned)rec.good_upto : (unsigned)rec.path.size() - 1;
-      unsigned inf = check_path(ctx, br, rec, upto, !good, mo, good ? "bwd_good_" : "bwd_err_");
+      unsigned inf = check_path(ctx, br, rec, upto, !good, mo, good ? AA_PFX "bwd_good_" : AA_PFX "bwd_err_");
       R().cls(inf >= 2 ? "c11_event_through_2plus_informative_blocks" : (inf == 1 ? "c11_event_through_1_informative_block" : "c11_event_through_0_informative_blocks"));
       if (inf >= 2)
         nt_events++;
